@@ -23,7 +23,7 @@ pipelined stream is malformed (the daemon leaves with exit 100 without flushing;
 "committed => acknowledged" direction is affected); NUL bytes inside SMTP command lines (the documents say nothing; only the
 envelope/acknowledgement correspondence is checked); HELO name shown or not; status 82 with text not starting with D/Z; status
 115; a queue program that exits 0 without reading."""
-import os, json, re
+import os, json
 from lib import vlib, sandbox
 from props import smtp_common as M
 from props.smtp_common import B, J
